@@ -6,6 +6,7 @@ import Rbacx.Spec.Operators
 import Rbacx.Spec.DenyByDefault
 import Rbacx.Spec.Engine
 import Rbacx.Proofs.Total
+import Rbacx.Model.RelMemo
 /-
   Driver.Main — one JSON command per input line, one JSON answer per output line.
 -/
@@ -99,6 +100,15 @@ def handle (j : Json) : Except String Json := do
       match guardEval o cfg pol req with
       | .ok (d, evs) => Json.mkObj [("ok", encDecision d evs)]
       | .error e => encErr e
+    -- optional: the relationship-checker calls of this decision (memoised evaluation)
+    let model : Json :=
+      if fieldBool j "want_rel_calls" then
+        let (_, st) := guardDecideM (condCtx o cfg req) cfg.consts pol
+        let calls := st.trace.map fun k => Json.arr #[.str k.subject, .str k.relation, .str k.resource, encVal k.ctx]
+        match model with
+        | .obj _ => model.setObjVal! "rel_calls" (.arr calls.toArray)
+        | m => m
+      else model
     -- optional: spec predicates evaluated on the implementation's observed decision
     match field j "impl" with
     | .null => pure model
